@@ -68,6 +68,13 @@ def _loadtxt_calls(fn: ast.FunctionDef):
         out[table] = (ast.unparse(s.targets[0]), ndmin, is_int, reshape)
     if set(out) != set(TABLES):
         raise Unavailable(f"tables loaded: {sorted(out)}")
+    # all-or-nothing: every file is loaded before the object is touched (a read that fails — a missing or truncated
+    # table — then leaves the network exactly as it was; the model reads the five tables and only then builds)
+    body = [s_ for s_ in fn.body if not (isinstance(s_, ast.Expr) and isinstance(s_.value, ast.Constant))]
+    is_load = ["loadtxt" in ast.unparse(s_) and isinstance(s_, ast.Assign) for s_ in body]
+    if any(is_load[k] for k in range(is_load.index(False) if False in is_load else len(is_load), len(is_load))):
+        raise Unavailable("read_network: a table is loaded after the object has already been modified "
+                          "(a failed read is no longer all-or-nothing)")
     return out
 
 
